@@ -947,3 +947,32 @@ pub fn s_pos_eq(a: &Pos, b: &Pos) -> bool {
         && a.pieces[4] == b.pieces[4] && a.pieces[5] == b.pieces[5] && a.colors[0] == b.colors[0] && a.colors[1] == b.colors[1]
         && a.stm == b.stm && a.rights[0] == b.rights[0] && a.rights[1] == b.rights[1] && a.ep == b.ep
 }
+
+/// (checkers, raw pinned) by the POINTWISE rule the library's scan implements: every enemy slider on a ray of the right
+/// kind from the king contributes itself as a checker when nothing stands between, or the single man between as pinned.
+/// Proved equal to the eight-walk formulation `s_check_pin` by the code-independent lemma S1.6.
+pub fn s_check_pin_pointwise(p: &Pos) -> (u64, u64) {
+    let me = p.stm;
+    let them = 1 - me;
+    let k = p.king_sq(me);
+    let occ = p.occ();
+    let e = p.colors[them];
+    let cand = e & ((s_bishop_rays(k) & (p.pieces[BISHOP] | p.pieces[QUEEN])) | (s_rook_rays(k) & (p.pieces[ROOK] | p.pieces[QUEEN])));
+    let mut ch = 0u64;
+    let mut pin = 0u64;
+    let mut sq = 0u8;
+    while sq < 64 {
+        if cand & bit(sq) != 0 {
+            let bt = s_between(sq, k) & occ;
+            if bt == 0 {
+                ch ^= bit(sq);
+            } else if bt.count_ones() == 1 {
+                pin ^= bt;
+            }
+        }
+        sq += 1;
+    }
+    ch ^= s_knight(k) & e & p.pieces[KNIGHT];
+    ch ^= s_pawn_att(k, me) & e & p.pieces[PAWN];
+    (ch, pin)
+}
